@@ -27,6 +27,9 @@ CLAIMED = {
  "C01": ("Hypothesis-generated problem specs (all fit types x all built-in cost identifiers x source mixes x constraints x parameter points) vs. numpy reference cost",
          "Generated-input search: a JSON problem spec is built into a real fit through the public API and, independently, evaluated by a numpy/scipy reference written from the documented formulas (covariance assembly incl. signed relative references and model-referenced sources at the current parameters, x->y projection with the analytic slope, log-determinant, constraint costs, Poisson/Gaussian NLL and ratios, Gauss approximation, unbinned NLL); cost_function_value, total_cov_mat, total_error and the model are compared at several parameter points before and after do_fit; metamorphic twins check 'disabled == never declared' and order independence.",
          "Trusts kverif/fitspec.py Ref (Cholesky-based); ROUND tolerance scaled by cond(V)/1e3 plus a per-point bound for kafe2's finite-difference slope; non-PD / cond>1e6 cases discarded (counted); Poisson identifiers without sources; histogram fits with exact bin integration and without model-relative sources.", "DESIGN.md §4 C01"),
+ "C10": ("Hypothesis-generated single fits and multi-fits with fix/release histories and constraints vs. documented ndf/gof/probability formulas (numpy/scipy reference)",
+         "Generated-input search: ndf is compared exactly with N_data + constraint rows - parameters + fixed after every generated fix/release/do_fit step; goodness of fit with an independent evaluation of cost minus saturated cost per cost class (chi2 incl. constraint cost and excluding the determinant term, pointwise, no-errors, Poisson/Gaussian NLL and ratios, Gauss approximation, None for unbinned); chi2 probability with scipy.stats.chi2.sf of the determinant-free chi2; result dict consistent; MultiFits of 1-3 mixed members with shared parameter names and constraints on both levels.",
+         "Trusts kverif/fitspec.py Ref and scipy.stats; PD covariance with cond<=1e6 (else discarded); x-projected covariances carry a first-order bound for kafe2's finite-difference slope.", "DESIGN.md §4 C10"),
 }
 NOT_YET = "check not built yet in this session (work in progress; see DESIGN.md §10 build order)"
 
